@@ -13,7 +13,33 @@ pub mod ledger;
 pub mod nested;
 pub mod rng;
 
+
 pub use rng::Rng;
+
+// User-crate types whose paths look like the standard ones (C17: a recorded name must keep
+// denoting *these* types, not the standard types of the same name).
+
+pub mod option {
+    #[derive(Clone, Copy, Debug, PartialEq, Eq)]
+    pub struct Option<T>(pub T);
+}
+pub mod result {
+    #[derive(Clone, Copy, Debug, PartialEq, Eq)]
+    pub struct Result<T, E>(pub T, pub E);
+}
+pub mod string {
+    #[derive(Clone, Copy, Debug, PartialEq, Eq)]
+    pub struct String(pub u8);
+}
+pub mod vec {
+    #[derive(Clone, Copy, Debug, PartialEq, Eq)]
+    pub struct Vec<T>(pub T);
+}
+pub mod boxed {
+    #[derive(Clone, Copy, Debug, PartialEq, Eq)]
+    pub struct Box<T>(pub T);
+}
+
 
 /// A value that can be made from an id and gives it back.
 pub trait Probe: Sized {
